@@ -318,7 +318,7 @@ Section MerkleSpec.
   (* ... and it is what the model itself computes for the inner collection: build the milhouse
      List<u64, U64> of the values (a tree of depth 4 over packed leaves) and take its tree_hash_root *)
   Lemma capacity_ok_64 : capacity_ok 64.
-  Proof. split; apply N.leb_le; vm_compute; reflexivity. Qed.
+  Proof. apply N.leb_le; vm_compute; reflexivity. Qed.
 
   Theorem nl_root_is_inner_list_root (xs : list U64) : lenN xs <= 64 ->
     exists h : handle U64 mvmap,
